@@ -231,7 +231,7 @@ func c02Processes(c *caseCtx) {
 func c02MapOrder(c *caseCtx) {
 	r := c.rng
 	method := []string{"electreIII", "electreIII", "majorityHeuristic", "electreIII", "aspectEliminationHeuristic", "weightedSum", "electreIII", "owa"}[c.idx%8]
-	g := genRequest(r, genOpts{method: method, profile: profTies, minCrit: 3, maxCrit: 6, minAlt: 4, maxAlt: 7, nBiases: (c.idx / 8) % 2, allCons: 1, vetoHeavy: c.idx%3 == 0})
+	g := genRequest(r, genOpts{method: method, profile: profTies, minCrit: 4, maxCrit: 6, minAlt: 4, maxAlt: 7, nBiases: (c.idx / 8) % 2, allCons: 1, vetoHeavy: c.idx%3 == 0})
 	mp := g.M["methodParameters"].(M)
 	step := func() float64 { return float64(1+r.Intn(12)) * 0.05 }
 	if ec, ok := mp["electreCriteria"].(M); ok {
@@ -246,6 +246,21 @@ func c02MapOrder(c *caseCtx) {
 		for k := range w {
 			w[k] = step()
 		}
+	}
+	if method == "weightedSum" || method == "owa" {
+		// amounts with cents above 1e7: a sum taken in another order differs before the eighth decimal; an omission hands
+		// the kept criteria and their weights on in a new order (or in the order of a map, if someone builds one)
+		for _, a := range g.M["knownAlternatives"].([]interface{}) {
+			cv := a.(M)["criteria"].(M)
+			for k := range cv {
+				cv[k] = float64(10000000+r.Intn(900000000)) + float64(r.Intn(100))/100
+			}
+		}
+		for _, cr := range g.M["criteria"].([]interface{}) {
+			delete(cr.(M), "valuesRange")
+		}
+		g.M["biases"] = []interface{}{M{"name": "criteriaOmission", "props": M{"ratio": 0.2, "min": 1, "max": 1}}}
+		c.count("money_like_requests", 1)
 	}
 	body := g.body()
 	R := 8
